@@ -55,6 +55,36 @@ Predict(r) ==
     [] r.f = "var_eq"           -> VarEq(r.a[1], r.a[2])
     [] r.f = "var_ne"           -> VarNe(r.a[1], r.a[2])
     [] r.f = "var_less"         -> VarLess(r.a[1], r.a[2])
+    \* extension round
+    [] r.f = "opt_from_pointer" -> OptFromPointer(r.a[1])
+    [] r.f = "opt_to_pointer"   -> OptToPointer(r.a[1])
+    [] r.f = "opt_copy_value"   -> OptCopyValue(r.st, r.a[1])
+    [] r.f = "opt_deref"        -> OptDeref(r.a[1])
+    [] r.f = "opt_ref_write"    -> OptRefWrite(r.st, r.a[1], r.d)
+    [] r.f = "opt_value_copy_write" -> OptValueCopyWrite(r.a[1], r.d)
+    [] r.f = "opt_assign"       -> OptAssign(r.a[1], r.x, r.d)
+    [] r.f = "opt_nothing"      -> OptNothing
+    [] r.f = "opt_make"         -> OptMake(r.a[1])
+    [] r.f = "opt_to_exception" -> OptToException(r.a[1], r.d)
+    [] r.f = "opt_output"       -> OptOutput(r.a[1])
+    [] r.f = "optopt_output"    -> OptOptOutput(r.a[1])
+    [] r.f = "eit_construct"    -> EitConstruct(r.a[1], r.x, r.d)
+    [] r.f = "eit_error_from_optional" -> EitErrorFromOptional(r.a[1])
+    [] r.f = "eit_make_success" -> EitMakeSuccess(r.a[1])
+    [] r.f = "eit_make_failure" -> EitMakeFailure(r.a[1])
+    [] r.f = "eit_to_exception" -> EitToException(r.a[1], r.tf)
+    [] r.f = "eit_output"       -> EitOutput(r.a[1])
+    [] r.f = "eit_sequence_error" -> EitSequenceError(r.a[1], r.tf)
+    [] r.f = "var_assign"       -> VarAssign(r.a[1], r.a[2])
+    [] r.f = "var_ref_write"    -> VarRefWrite(r.i, r.a[1], r.d)
+    [] r.f = "var_dynamic_cast" -> VarDynamicCast(r.types, {r.castable[k] : k \in DOMAIN r.castable})
+    [] r.f = "var_output"       -> VarOutput(r.a[1])
+    [] r.f = "monad_chain_opt"  -> OptChain(r.a[1], r.tf)
+    [] r.f = "monad_chain_eit"  -> EitChain(r.a[1], r.tf)
+    [] r.f = "monad_do_opt"     -> OptDo(r.a[1], r.tf)
+    [] r.f = "monad_do_eit"     -> EitDo(r.a[1], r.tf)
+    [] r.f = "monad_return_opt" -> MonadReturnOpt(r.a[1])
+    [] r.f = "monad_return_eit" -> MonadReturnEit(r.a[1])
 
 Known == {"opt_maybe", "opt_maybe_void", "opt_map", "opt_bind", "monad_bind_opt", "opt_join",
           "opt_apply", "opt_filter", "opt_alternative", "opt_combine", "opt_cat", "opt_sequence",
@@ -63,7 +93,47 @@ Known == {"opt_maybe", "opt_maybe_void", "opt_map", "opt_bind", "monad_bind_opt"
           "eit_apply", "eit_sequence", "eit_first_success", "eit_loop", "eit_from_optional",
           "eit_try_call", "eit_success_opt", "eit_failure_opt", "eit_eq", "eit_ne",
           "var_match", "var_apply", "var_to_optional", "var_holds_type", "var_compare",
-          "var_eq", "var_ne", "var_less"}
+          "var_eq", "var_ne", "var_less",
+          "opt_from_pointer", "opt_to_pointer", "opt_copy_value", "opt_deref", "opt_ref_write",
+          "opt_value_copy_write", "opt_assign", "opt_nothing", "opt_make", "opt_to_exception",
+          "opt_output", "optopt_output", "eit_construct", "eit_error_from_optional",
+          "eit_make_success", "eit_make_failure", "eit_to_exception", "eit_output",
+          "eit_sequence_error", "var_assign", "var_ref_write", "var_dynamic_cast", "var_output",
+          "monad_chain_opt", "monad_chain_eit", "monad_do_opt", "monad_do_eit",
+          "monad_return_opt", "monad_return_eit"}
+
+(* Scope.  A record kind is IN SCOPE iff the statement of C04 (properties.jsonl) covers it; only those may
+   lead to a VIOLATION.  Every other kind is judged in exactly the same way but a disagreement is tagged
+   OBSERVED-ONLY and is reported by the check as an observation (evidence coverage.observations), never
+   as a violation.  In scope, with the clause of the statement:
+     "map/bind/join/apply obey the functor, applicative and monad laws"
+         opt_map opt_bind monad_bind_opt opt_join opt_apply eit_map eit_map_failure eit_bind
+         monad_bind_eit eit_join eit_apply var_apply          (monad/bind.hpp is an anchor)
+     "maybe/from/match select the branch of the held alternative and invoke exactly that
+      continuation exactly once"
+         opt_maybe opt_maybe_void opt_maybe_multi opt_from eit_match eit_from_optional var_match
+     "filter/alternative/combine/cat/sequence/first_success/loop/try_call return what their
+      documentation states"
+         opt_filter opt_alternative opt_combine opt_cat opt_sequence eit_sequence
+         eit_first_success eit_loop eit_try_call opt_make_if (anchor make_if.hpp)
+     "the optional, either and variant operations agree with the tagged-union model" together with
+     the anchors comparison.hpp / compare.hpp / holds_type.hpp / to_optional.hpp / success_opt.hpp /
+     failure_opt.hpp
+         opt_eq opt_ne opt_less eit_eq eit_ne eit_success_opt eit_failure_opt var_to_optional
+         var_holds_type var_compare var_eq var_ne var_less
+   (records of these kinds over the 4-alternative variant are the same kinds at a deeper bound).
+   Everything added in the extension round (pointers / references / assign / nothing / make /
+   to_exception / output, either construct / error_from_optional / make_* / to_exception /
+   sequence_error / output, variant assignment / to_optional_ref / dynamic_cast_ / output,
+   monad chain / do_ / return_) is not named by the statement: observed only. *)
+InScope == {"opt_maybe", "opt_maybe_void", "opt_map", "opt_bind", "monad_bind_opt", "opt_join",
+            "opt_apply", "opt_filter", "opt_alternative", "opt_combine", "opt_cat", "opt_sequence",
+            "opt_from", "opt_maybe_multi", "opt_make_if", "opt_eq", "opt_ne", "opt_less",
+            "eit_match", "eit_map", "eit_map_failure", "eit_bind", "monad_bind_eit", "eit_join",
+            "eit_apply", "eit_sequence", "eit_first_success", "eit_loop", "eit_from_optional",
+            "eit_try_call", "eit_success_opt", "eit_failure_opt", "eit_eq", "eit_ne",
+            "var_match", "var_apply", "var_to_optional", "var_holds_type", "var_compare",
+            "var_eq", "var_ne", "var_less"}
 
 CallsOK(r, p) ==
   IF r.f = "eit_first_success" THEN BagCallsEq(p.calls, r.calls)
@@ -73,7 +143,7 @@ CallsOK(r, p) ==
 AlgReasons(r) ==
   IF r.f \notin Known THEN {"HARNESS-unknown-combinator"}
   ELSE IF r.f = "eit_loop" /\ ~EitLoopPre(r.a[1]) THEN {"HARNESS-PRECONDITION"}
-  ELSE LET p == Predict(r) IN
-       (IF p.res = r.res THEN {} ELSE {"result"})
-       \cup (IF CallsOK(r, p) THEN {} ELSE {"calls"})
+  ELSE LET p == Predict(r)
+           w == (IF p.res = r.res THEN {} ELSE {"result"}) \cup (IF CallsOK(r, p) THEN {} ELSE {"calls"})
+       IN IF w # {} /\ r.f \notin InScope THEN w \cup {"OBSERVED-ONLY"} ELSE w
 =============================================================================
